@@ -372,6 +372,10 @@ fn enum_parse(ty: &RealEnum, text: &str) -> Resp {
                 if (ty.parse)(printed).as_ref() != Some(v) {
                     fail = Some(format!("from_str(to_string({})) != {}", v, v));
                 }
+                // text side (`canonTextEnum`): a printed keyword of the type that parses prints back to itself
+                if ty.variants.iter().any(|x| x.1 == text) && printed != text {
+                    fail = Some(format!("text side: keyword {:?} parses to {} which prints {:?}", text, v, printed));
+                }
             }
         }
     }
@@ -530,6 +534,122 @@ fn canon_identity(name: &str, email: &str) -> bool {
     name.trim() == name && !name.contains('<') && email.trim() == email
 }
 
+// ------------------------------------------------------------------ canonical TEXTS
+//
+// Each `canon_text_*` predicate is the Rust transcription of the `canonText…` predicate of
+// Props/C18Text.lean. Text-side clause evaluated by the parse ops: a canonical text that parses prints
+// back to itself (`C18_<T>_text`); by the print ops: the printed form of a canonical value is a
+// canonical text (`C18_<T>_print_canontext`). BuildProfile, Origin, AppliedUpstream, Forwarded and
+// License: every text is canonical.
+
+fn text_side(t: &str, printed: &str, canon_text: bool) -> Option<String> {
+    if canon_text && printed != t {
+        Some(format!("text side: canonical text {:?} parses but prints back as {:?}", t, printed))
+    } else {
+        None
+    }
+}
+fn print_side(printed: &str, canon_value: bool, canon_text: bool) -> Option<String> {
+    if canon_value && !canon_text {
+        Some(format!("printed form {:?} of a canonical value is not a canonical text", printed))
+    } else {
+        None
+    }
+}
+/// `canonTextUsize`: ASCII digits only, no leading zero except "0"
+fn canon_text_usize(s: &str) -> bool {
+    !s.is_empty() && s.chars().all(|c| c.is_ascii_digit()) && (s == "0" || !s.starts_with('0'))
+}
+fn priority_keywords() -> Vec<String> {
+    [Priority::Required, Priority::Important, Priority::Standard, Priority::Optional, Priority::Extra].iter().map(|p| p.to_string()).collect()
+}
+/// `canonTextChecksum`
+fn canon_text_checksum(t: &str) -> bool {
+    let ps: Vec<&str> = t.split(' ').collect();
+    matches!(ps.as_slice(), [h, n, f] if tok(h) && canon_text_usize(n) && tok(f))
+}
+/// `canonTextChangesFile`
+fn canon_text_file(t: &str) -> bool {
+    let ps: Vec<&str> = t.split(' ').collect();
+    matches!(ps.as_slice(), [m, n, sec, pr, f]
+        if tok(m) && canon_text_usize(n) && tok(sec) && priority_keywords().iter().any(|k| k == pr) && tok(f))
+}
+/// `canonTextPkgEntry`: extras are `key=value` tokens with strictly increasing keys (byte order =
+/// code-point order)
+fn canon_text_ple(t: &str) -> bool {
+    let ps: Vec<&str> = t.split(' ').collect();
+    if ps.len() < 4 {
+        return false;
+    }
+    if !(tok(ps[0]) && tok(ps[1]) && tok(ps[2]) && priority_keywords().iter().any(|k| k == ps[3])) {
+        return false;
+    }
+    let rest = &ps[4..];
+    if !rest.iter().all(|p| tok(p) && p.contains('=')) {
+        return false;
+    }
+    let keys: Vec<&str> = rest.iter().map(|p| p.split_once('=').unwrap().0).collect();
+    keys.windows(2).all(|w| w[0] < w[1])
+}
+/// `subOK`: `[p]`, p a token without `]`
+fn sub_ok(x: &str) -> bool {
+    x.strip_prefix('[').and_then(|r| r.strip_suffix(']')).map(|p| tok(p) && !p.contains(']')).unwrap_or(false)
+}
+/// `branchOKB`
+fn branch_ok_b(b: &str) -> bool {
+    match b.strip_prefix('[') {
+        Some(t) => t.starts_with(']') || !t.contains(']'),
+        None => true,
+    }
+}
+/// `canonTextVcs`
+fn canon_text_vcs(t: &str) -> bool {
+    let ps: Vec<&str> = t.split(' ').collect();
+    match ps.as_slice() {
+        [u] => tok(u),
+        [u, x] => tok(u) && sub_ok(x),
+        [u, m, b] => tok(u) && *m == "-b" && tok(b) && branch_ok_b(b),
+        [u, m, b, x] => tok(u) && *m == "-b" && tok(b) && branch_ok_b(b) && sub_ok(x),
+        _ => false,
+    }
+}
+/// `canonTextVcsNoBranch`
+fn canon_text_vcs_nobranch(t: &str) -> bool {
+    let ps: Vec<&str> = t.split(' ').collect();
+    match ps.as_slice() {
+        [u] => tok(u),
+        [u, x] => tok(u) && sub_ok(x),
+        _ => false,
+    }
+}
+/// `canonTextVcsField`
+fn canon_text_vcs_field(name: &str, value: &str) -> bool {
+    match name {
+        "Git" => canon_text_vcs(value),
+        "Bzr" => canon_text_vcs_nobranch(value),
+        "Hg" | "Svn" | "Cvs" => true,
+        _ => false,
+    }
+}
+/// `canonTextIdentity`: `name <email>`, one space before the first `<`, name and email trimmed
+fn canon_text_identity(t: &str) -> bool {
+    match t.split_once('<') {
+        Some((a, b)) => match (b.strip_suffix('>'), a.strip_suffix(' ')) {
+            (Some(e), Some(n)) => n.trim() == n && e.trim() == e,
+            _ => false,
+        },
+        None => false,
+    }
+}
+/// `canonTextOriginField`: not a bare category keyword
+fn canon_text_origin_field(t: &str) -> bool {
+    !["backport", "vendor", "upstream", "other"].contains(&t)
+}
+/// `canonTextSignature`: a single line, or a multi-line text beginning with a line feed
+fn canon_text_signature(t: &str) -> bool {
+    !t.contains('\n') || t.starts_with('\n')
+}
+
 // ------------------------------------------------------------------ records
 
 macro_rules! checksum_ops {
@@ -541,7 +661,8 @@ macro_rules! checksum_ops {
             }
             pub fn oracle(c: &$ty) -> Option<String> {
                 // CanonChecksum
-                if !dom(tok(&c.$field) && tok(&c.filename)) {
+                let canon = tok(&c.$field) && tok(&c.filename);
+                if !dom(canon) {
                     return None;
                 }
                 let t = c.to_string();
@@ -550,7 +671,7 @@ macro_rules! checksum_ops {
                         if c2.to_string() != t {
                             Some(format!("from_str({:?}).to_string() = {:?}", t, c2.to_string()))
                         } else {
-                            None
+                            print_side(&t, canon, canon_text_checksum(&t))
                         }
                     }
                     other => Some(format!("from_str(to_string(v)) = {:?} for v = {:?}", other.ok(), c)),
@@ -558,7 +679,7 @@ macro_rules! checksum_ops {
             }
             pub fn parse(t: &str) -> Resp {
                 match $ty::from_str(t) {
-                    Ok(c) => Resp::with(show(&c), oracle(&c)),
+                    Ok(c) => Resp::with(show(&c), oracle(&c).or_else(|| text_side(t, &c.to_string(), canon_text_checksum(t)))),
                     Err(_) => Resp::ok("err".into()),
                 }
             }
@@ -589,7 +710,8 @@ fn file_show(c: &File) -> String {
 }
 fn file_oracle(c: &File) -> Option<String> {
     // CanonChangesFile
-    if !dom(tok(&c.md5sum) && tok(&c.section) && tok(&c.filename)) {
+    let canon = tok(&c.md5sum) && tok(&c.section) && tok(&c.filename);
+    if !dom(canon) {
         return None;
     }
     let t = c.to_string();
@@ -598,7 +720,7 @@ fn file_oracle(c: &File) -> Option<String> {
             if c2.to_string() != t {
                 Some(format!("from_str({:?}).to_string() = {:?}", t, c2.to_string()))
             } else {
-                None
+                print_side(&t, canon, canon_text_file(&t))
             }
         }
         other => Some(format!("from_str(to_string(v)) = {:?} for v = {:?}", other.ok(), c)),
@@ -623,7 +745,8 @@ fn ple_show(e: &PackageListEntry) -> String {
     )
 }
 fn ple_oracle(e: &PackageListEntry) -> Option<String> {
-    if !dom(canon_ple(e)) {
+    let canon = canon_ple(e);
+    if !dom(canon) {
         return None;
     }
     let t = e.to_string();
@@ -633,7 +756,7 @@ fn ple_oracle(e: &PackageListEntry) -> Option<String> {
             if t2 != t {
                 Some(format!("from_str({:?}).to_string() = {:?}", t, t2))
             } else {
-                None
+                print_side(&t, canon, canon_text_ple(&t))
             }
         }
         other => Some(format!("from_str(to_string(v)) = {:?} for v = {:?}", other.ok(), e)),
@@ -661,12 +784,13 @@ fn pv_show(v: &ParsedVcs) -> String {
     format!("ok {} {} {}", es(&v.repo_url), eopt(v.branch.as_deref()), eopt(v.subpath.as_deref()))
 }
 fn pv_oracle(v: &ParsedVcs) -> Option<String> {
-    if !dom(canon_parsed_vcs(&v.repo_url, &v.branch, &v.subpath)) {
+    let canon = canon_parsed_vcs(&v.repo_url, &v.branch, &v.subpath);
+    if !dom(canon) {
         return None;
     }
     let t = v.to_string();
     match ParsedVcs::from_str(&t) {
-        Ok(v2) if &v2 == v && v2.to_string() == t => None,
+        Ok(v2) if &v2 == v && v2.to_string() == t => print_side(&t, canon, canon_text_vcs(&t)),
         other => Some(format!("from_str({:?}) = {:?} for v = {:?}", t, other, v)),
     }
 }
@@ -683,7 +807,8 @@ fn vcs_show(v: &Vcs) -> String {
     }
 }
 fn vcs_oracle(v: &Vcs) -> Option<String> {
-    if !dom(canon_vcs_field(v)) {
+    let canon = canon_vcs_field(v);
+    if !dom(canon) {
         return None;
     }
     let (name, value) = v.to_field();
@@ -693,7 +818,7 @@ fn vcs_oracle(v: &Vcs) -> Option<String> {
             if n2 != name || val2 != value {
                 Some(format!("to_field(from_field({:?},{:?})) = ({:?},{:?})", name, value, n2, val2))
             } else {
-                None
+                print_side(&value, canon, canon_text_vcs_field(name, &value))
             }
         }
         other => Some(format!("from_field({:?},{:?}) = {:?} for v = {:?}", name, value, other, v)),
@@ -784,7 +909,8 @@ fn origin_field_show(r: &(Option<OriginCategory>, Origin)) -> String {
     )
 }
 fn origin_field_oracle(r: &(Option<OriginCategory>, Origin)) -> Option<String> {
-    if !dom(canon_origin_field(&r.0, &r.1)) {
+    let canon = canon_origin_field(&r.0, &r.1);
+    if !dom(canon) {
         return None;
     }
     let t = match real_format_origin(r.0, r.1.clone()) {
@@ -796,7 +922,7 @@ fn origin_field_oracle(r: &(Option<OriginCategory>, Origin)) -> Option<String> {
             if real_format_origin(r2.0, r2.1.clone()).as_deref() != Some(t.as_str()) {
                 Some(format!("format_origin(parse_origin({:?})) differs", t))
             } else {
-                None
+                print_side(&t, canon, canon_text_origin_field(&t))
             }
         }
         other => Some(format!("parse_origin({:?}) = {:?} for v = {:?}", t, other, r)),
@@ -845,12 +971,13 @@ fn signature_show(s: &Signature) -> String {
     }
 }
 fn signature_oracle(s: &Signature) -> Option<String> {
-    if !dom(canon_signature(s)) {
+    let canon = canon_signature(s);
+    if !dom(canon) {
         return None;
     }
     let t = s.to_string();
     match Signature::from_str(&t) {
-        Ok(s2) if &s2 == s && s2.to_string() == t => None,
+        Ok(s2) if &s2 == s && s2.to_string() == t => print_side(&t, canon, canon_text_signature(&t)),
         other => Some(format!("from_str({:?}) = {:?} for v = {:?}", t, other.ok(), s)),
     }
 }
@@ -870,23 +997,34 @@ fn handle_parse(ty: &str, a: &[&str]) -> Option<Resp> {
         ("Sha256Checksum", [t]) => Some(sha256::parse(&ds(t)?)),
         ("Sha512Checksum", [t]) => Some(sha512::parse(&ds(t)?)),
         ("File", [t]) => Some(match File::from_str(&ds(t)?) {
-            Ok(c) => Resp::with(file_show(&c), file_oracle(&c)),
+            Ok(c) => Resp::with(file_show(&c), file_oracle(&c).or_else(|| text_side(&ds(t)?, &c.to_string(), canon_text_file(&ds(t)?)))),
             Err(_) => Resp::ok("err".into()),
         }),
         ("PackageListEntry", [t]) => Some(match PackageListEntry::from_str(&ds(t)?) {
-            Ok(e) => Resp::with(ple_show(&e), ple_oracle(&e)),
+            Ok(e) => Resp::with(ple_show(&e), ple_oracle(&e).or_else(|| text_side(&ds(t)?, &e.to_string(), canon_text_ple(&ds(t)?)))),
             Err(_) => Resp::ok("err".into()),
         }),
         ("BuildProfile", [t]) => Some(match BuildProfile::from_str(&ds(t)?) {
-            Ok(p) => Resp::with(bp_show(&p), bp_oracle(&p)),
+            Ok(p) => Resp::with(bp_show(&p), bp_oracle(&p).or_else(|| text_side(&ds(t)?, &p.to_string(), true))),
             Err(_) => Resp::ok("err".into()),
         }),
         ("ParsedVcs", [t]) => Some(match ParsedVcs::from_str(&ds(t)?) {
-            Ok(v) => Resp::with(pv_show(&v), pv_oracle(&v)),
+            Ok(v) => Resp::with(pv_show(&v), pv_oracle(&v).or_else(|| text_side(&ds(t)?, &v.to_string(), canon_text_vcs(&ds(t)?)))),
             Err(_) => Resp::ok("err".into()),
         }),
         ("Vcs", [n, t]) => Some(match Vcs::from_field(&ds(n)?, &ds(t)?) {
-            Ok(v) => Resp::with(format!("ok {}", vcs_show(&v)), vcs_oracle(&v)),
+            Ok(v) => Resp::with(
+                format!("ok {}", vcs_show(&v)),
+                vcs_oracle(&v).or_else(|| {
+                    let (n0, t0) = (ds(n)?, ds(t)?);
+                    let (n2, t2) = v.to_field();
+                    if canon_text_vcs_field(&n0, &t0) && (n2 != n0 || t2 != t0) {
+                        Some(format!("text side: canonical field ({:?},{:?}) parses but prints back as ({:?},{:?})", n0, t0, n2, t2))
+                    } else {
+                        None
+                    }
+                }),
+            ),
             Err(_) => Resp::ok("err".into()),
         }),
         ("Identity", [t]) => {
@@ -900,37 +1038,41 @@ fn handle_parse(ty: &str, a: &[&str]) -> Option<Resp> {
                             fail = Some(format!("parse_identity({:?}) != ({:?},{:?})", t2, n, e));
                         }
                     }
+                    let fail = fail.or_else(|| text_side(&s, &format!("{} <{}>", n, e), canon_text_identity(&s)));
                     Resp::with(format!("ok {} {}", es(n), es(e)), fail)
                 }
                 Err(_) => Resp::ok("err".into()),
             })
         }
         ("Origin", [t]) => Some(match Origin::from_str(&ds(t)?) {
-            Ok(o) => Resp::with(format!("ok {}", origin_show(&o)), origin_oracle(&o)),
+            Ok(o) => Resp::with(format!("ok {}", origin_show(&o)), origin_oracle(&o).or_else(|| text_side(&ds(t)?, &o.to_string(), true))),
             Err(_) => Resp::ok("err".into()),
         }),
         ("AppliedUpstream", [t]) => Some(match AppliedUpstream::from_str(&ds(t)?) {
-            Ok(o) => Resp::with(format!("ok {}", applied_show(&o)), applied_oracle(&o)),
+            Ok(o) => Resp::with(format!("ok {}", applied_show(&o)), applied_oracle(&o).or_else(|| text_side(&ds(t)?, &o.to_string(), true))),
             Err(_) => Resp::ok("err".into()),
         }),
         ("OriginField", [t]) => Some(match real_parse_origin(&ds(t)?) {
-            Ok(r) => Resp::with(origin_field_show(&r), origin_field_oracle(&r)),
+            Ok(r) => Resp::with(
+                origin_field_show(&r),
+                origin_field_oracle(&r).or_else(|| {
+                    let t0 = ds(t)?;
+                    let printed = real_format_origin(r.0, r.1.clone()).unwrap_or_default();
+                    text_side(&t0, &printed, canon_text_origin_field(&t0))
+                }),
+            ),
             Err(_) => Resp::ok("err".into()),
         }),
         ("Forwarded", [t]) => Some(match Forwarded::from_str(&ds(t)?) {
-            // every text is canonical for Forwarded (keyword or free text): it prints back as written
-            Ok(f) if f.to_string() != ds(t)? => {
-                Resp::with(forwarded_show(&f), Some(format!("from_str({:?}).to_string() = {:?}", ds(t)?, f.to_string())))
-            }
-            Ok(f) => Resp::with(forwarded_show(&f), forwarded_oracle(&f)),
+            Ok(f) => Resp::with(forwarded_show(&f), forwarded_oracle(&f).or_else(|| text_side(&ds(t)?, &f.to_string(), true))),
             Err(_) => Resp::ok("err".into()),
         }),
         ("License", [t]) => Some(match License::from_str(&ds(t)?) {
-            Ok(l) => Resp::with(license_show(&l), license_oracle(&l)),
+            Ok(l) => Resp::with(license_show(&l), license_oracle(&l).or_else(|| text_side(&ds(t)?, &l.to_string(), true))),
             Err(_) => Resp::ok("err".into()),
         }),
         ("Signature", [t]) => Some(match Signature::from_str(&ds(t)?) {
-            Ok(s) => Resp::with(signature_show(&s), signature_oracle(&s)),
+            Ok(s) => Resp::with(signature_show(&s), signature_oracle(&s).or_else(|| text_side(&ds(t)?, &s.to_string(), canon_text_signature(&ds(t)?)))),
             Err(_) => Resp::ok("err".into()),
         }),
         _ => None,
@@ -1264,6 +1406,14 @@ pub fn generate_c18(tier: &str, seed: u64, out: &mut Out) {
         for l in lists_upto(&["a", "5", "+5", "é", "x=y"], 4) {
             out.req(&op_parse, &[es(&l.join(" "))]);
         }
+        // canonical lines (text-side clause): tokens joined by single spaces around a canonical size
+        for h in &toks {
+            for n in ["0", "7", "10", "18446744073709551615"] {
+                for f in ["f", "é", "[x]", "a=b"] {
+                    out.req(&op_parse, &[es(&format!("{} {} {}", h, n, f))]);
+                }
+            }
+        }
     }
 
     // changes File
@@ -1285,6 +1435,12 @@ pub fn generate_c18(tier: &str, seed: u64, out: &mut Out) {
     }
     for l in lists_upto(&["a", "5", "optional", "extra", "é"], 5) {
         out.req("codec.File.parse", &[es(&l.join(" "))]);
+    }
+    for m in &toks {
+        for p in ["required", "important", "standard", "optional", "extra"] {
+            out.req("codec.File.parse", &[es(&format!("{} 10 sec {} {}", m, p, m))]);
+            out.req("codec.File.parse", &[es(&format!("m 0 {} {} f", m, p))]);
+        }
     }
 
     // PackageListEntry
@@ -1319,6 +1475,12 @@ pub fn generate_c18(tier: &str, seed: u64, out: &mut Out) {
     }
     for l in lists_upto(&["a", "optional", "k=v", "é"], 5) {
         out.req("codec.PackageListEntry.parse", &[es(&l.join(" "))]);
+    }
+    // canonical lines: extras in strictly increasing key order (and near misses of that order)
+    for t in &toks {
+        for ex in ["", " a=1", " a=1 b=2", " =0 a=1 a!=2 b= é=x", " k=v=w", " b=2 a=1", " a=1 a=2", " A=1 a=2 é=3 日本=4"] {
+            out.req("codec.PackageListEntry.parse", &[es(&format!("{} deb {} optional{}", t, t, ex))]);
+        }
     }
 
     // BuildProfile
